@@ -214,6 +214,13 @@ pub fn c18(cx: &Ctx, rep: &mut Report) {
                 }
             }
         }
+        // the constructed stress signatures through verify() against the reference (observation point named by the property)
+        let pk0b = std::sync::Arc::new(refmodel::zero_t1_pk(p, &rho));
+        let pk0 = refmodel::PkCtx::new(p, &pk0b);
+        let mut vcases: Vec<crate::forge::VCase> = e7::load_witnesses(p).into_iter().map(|(_, c)| c).collect();
+        vcases.extend(crate::forge::butterfly_cases(p, &pk0, &pk0b));
+        vcases.extend(e7::slot_max_cases(p, cx.tier == Tier::Thorough).into_iter().map(|(c, _)| c));
+        crate::checks_b::eval_vcases(api, &vcases, rep, "c18:verify");
         rep.extra.insert(format!("largest_row_sum_over_q_mldsa{}", p.id), json!(best));
         rep.sample(json!({"set":p.id,"sparse_coset_witnesses":ws.iter().map(|w| w.name.clone()).collect::<Vec<_>>(),"largest_row_sum_over_q":best,"i32_overflow_threshold_over_q":256.25}));
     }
